@@ -39,13 +39,16 @@ type c05Case struct {
 	Sections     []c05Section     `json:"sections"`
 	Reservations []c05Reservation `json:"reservations"`
 	ViaMultiboot bool             `json:"viamultiboot,omitempty"` // deliver the sections through a real multiboot2 block
-	FailAt       int              `json:"failat,omitempty"`   // fail the k-th frame allocation of setupPDTForKernel
-	TempFail     bool             `json:"tempfail,omitempty"` // fail the temporary mapping of the new root
+	FailAt       int              `json:"failat,omitempty"`       // fail the k-th frame allocation of setupPDTForKernel
+	TempFail     bool             `json:"tempfail,omitempty"`     // fail the temporary mapping of the new root
+	Hi           uint64           `json:"hi,omitempty"`           // frames with upper-half physical names (vmMachine.hiMask)
+	RootFlags    uint64           `json:"rootflags,omitempty"`    // extra bits on the boot root's recursive entry
 }
 
 func c05Run(c c05Case) *vlib.Failure {
 	defer vlib.Guard("C05", c, nil)()
 	m := vmNew()
+	m.hiMask, m.rootExtra = c.Hi, uintptr(c.RootFlags)
 	boot := m.newRoot()
 	m.cr3 = boot.Address()
 
@@ -83,12 +86,8 @@ func c05Run(c c05Case) *vlib.Failure {
 			reserved[uint64(addr>>12)+uint64(k)] = f
 		}
 	}
-	// every page of the reserved range must be mapped (real callers map what they reserve)
-	for a := earlyReserveLastUsed; a < tempMappingAddr; a += 4096 {
-		if _, ok := reserved[uint64(a>>12)]; !ok {
-			return vlib.Failf("VERIF-HARNESS: reserved page %#x has no mapping in the generated case", a)
-		}
-	}
+	// every page of every reserved region is mapped now, as real callers map what they reserve
+	// (whether the regions are adjacent is the reservation code's business: C07)
 
 	if c.ViaMultiboot {
 		// the real decoder reads the ELF-sections tag of a multiboot2 information block
@@ -227,6 +226,7 @@ func c05InstallMultiboot(secs []c05Section) [][]uint64 {
 
 func c05Gen(t *rapid.T) c05Case {
 	var c c05Case
+	c.Hi, c.RootFlags = vmGenPhys(t)
 	c.Offset = rapid.SampledFrom([]uint64{0xffff800000000000, 0xffff800000000000, 0xffffc00000000000, 1 << 30, 0x200000}).Draw(t, "offset")
 	cursor := c.Offset + rapid.SampledFrom([]uint64{0, 0x100000, 0x100000, 0x7ff000}).Draw(t, "load")
 	n := rapid.IntRange(0, 10).Draw(t, "nsections")
@@ -265,8 +265,19 @@ func c05Gen(t *rapid.T) c05Case {
 	nr := rapid.IntRange(0, 6).Draw(t, "nreservations")
 	for i := 0; i < nr; i++ {
 		pages := rapid.IntRange(1, 5).Draw(t, "rpages")
+		big := rapid.IntRange(0, 29).Draw(t, "rbig") == 0
+		if big {
+			// a frame buffer or a large bitmap: one request the size of a whole page table or more
+			pages = rapid.SampledFrom([]int{300, 511, 512, 513, 768, 1024, 1025, 1200}).Draw(t, "rbigpages")
+		}
 		r := c05Reservation{Size: uint64(pages)*4096 - uint64(rapid.SampledFrom([]int{0, 0, 1, 4095}).Draw(t, "rshort"))}
-		for k := 0; k < pages; k++ {
+		if big {
+			base := rapid.Uint64Range(1, 1<<36).Draw(t, "rbigframe")
+			for k := 0; k < pages; k++ {
+				r.Frames = append(r.Frames, base+uint64(k))
+			}
+		}
+		for k := 0; k < pages && !big; k++ {
 			if rapid.IntRange(0, 5).Draw(t, "rlowframe") == 0 {
 				// low memory, physical frame 0 included (the first frame the early allocator hands out)
 				r.Frames = append(r.Frames, uint64(rapid.IntRange(0, 3).Draw(t, "rframelow")))
@@ -331,6 +342,11 @@ func TestVerifC05(t *testing.T) {
 		}
 		if len(c.Reservations) > 0 {
 			add("has-reservations")
+		}
+		for _, r := range c.Reservations {
+			if len(r.Frames) >= 512 {
+				add("reservation-of-a-page-table-or-more")
+			}
 		}
 		if c.ViaMultiboot {
 			add("sections-through-real-multiboot-block")
